@@ -159,6 +159,9 @@ func Epoch() {}
 // AllocBound tells the engine up to which length symbolic allocations are case-split.
 func AllocBound(n int) {}
 
+// ExportPC hands the current path condition to the check's post-processing under the given name (engine only).
+func ExportPC(name string) {}
+
 // CompressPolicy selects how the engine's compressor stubs pick the compressed length of a block:
 // 0 = every length the library contract allows (forks), 1 = shortest (highest ratio), 2 = longest. Natively a no-op:
 // the real compressor decides.
